@@ -13,7 +13,7 @@ repaired tree (nil rules skipped in `LoadRules`; circuit breaker per-resource pa
 * A rule object is shared by `currentRules` (the raw cache the `DeepEqual` short-circuit compares against),
   by the controller and by the caller.  Constructors that write defaults back into the object
   (`WarmUpColdFactor ≤ 1 → 3`, `SpecificItems nil → {}`) therefore change the *cache*: `normIn`.
-* Controller reuse (`calculateReuseIndexFor`, flow and hotspot): a controller whose old rule is equal to the new one
+* Controller reuse (`calculateReuseIndexFor`, flow, hotspot and circuit breaker; identities of the controller objects: `buildZ` / `runC`): a controller whose old rule is equal to the new one
   for the module's own equality (`flowIsEqualsTo`, `hotEquals`, transcribed field by field) is kept **with the old rule
   object**; `bound` holds those objects (what the getters return), `enf` the rules the controllers were asked to be
   built from.  The two agree up to `canon` (the ID; hotspot: the behaviour-irrelevant field) — `Inv.bound`.  A record
@@ -176,6 +176,19 @@ def cbClause (r : CbRule) : Nat :=
 
 def cbBuildable (r : CbRule) : Bool := r.strategy ≤ 2
 
+/-- `(*Rule).isEqualsTo` of the circuit breaker: decides breaker reuse -/
+def cbIsEqualsTo (a b : CbRule) : Bool :=
+  a.res == b.res && a.strategy == b.strategy && a.retryMs == b.retryMs && a.minReq == b.minReq && a.statMs == b.statMs &&
+  a.buckets == b.buckets && a.probe == b.probe &&
+  (if b.strategy = 0 then a.maxRt == b.maxRt && a.th2 == b.th2 else if b.strategy = 1 ∨ b.strategy = 2 then a.th2 == b.th2 else false)
+
+/-- `(*Rule).isStatReusable` of the circuit breaker -/
+def cbStatReusable (a b : CbRule) : Bool :=
+  a.res == b.res && a.strategy == b.strategy && a.statMs == b.statMs && a.buckets == b.buckets
+
+/-- the part of a breaker rule that `isEqualsTo` looks at: no ID, `MaxAllowedRtMs` only under SlowRequestRatio -/
+def cbCanon (r : CbRule) : CbRule := { r with id := "", maxRt := if r.strategy = 0 then r.maxRt else 0 }
+
 structure SysRule where
   id : String
   metric : Nat     -- MetricType (uint32): 0 Load, 1 AvgRT, 2 Concurrency, 3 InboundQPS, 4 CpuUsage
@@ -242,7 +255,7 @@ def hotMod : RuleMod HotRule :=
     equals := hotEquals, statReusable := hotStatReusable, canon := hotCanon }
 def cbMod : RuleMod CbRule :=
   { res := (·.res), valid := fun r => cbClause r = 0, buildable := cbBuildable, norm := id, scopedRes := true, pubValid := true,
-    equals := fun _ _ => false, statReusable := fun _ _ => false, canon := id }   -- the getters read `breakerRules`, never a breaker's rule (breaker identity is C14's)
+    equals := cbIsEqualsTo, statReusable := cbStatReusable, canon := cbCanon }   -- (the getters read `breakerRules`, never a breaker's rule)
 
 structure MState (R : Type) where
   /-- every key that may be present in `currentRules` -/
@@ -346,6 +359,55 @@ def run (ops : List (Op R)) : MState R := ops.foldl (fun s op => (step M s op).1
 def getRes (s : MState R) (k : String) : List R := s.pub k
 /-- `GetRules` (in some map order: compare as a multiset) -/
 def getAll (s : MState R) : List R := s.keys.eraseDups.flatMap s.pub
+
+/-! ### controller identities: which controller *objects* are in force (a reused controller keeps its identity and
+its runtime state — pacer, breaker state, counters —, a built one is fresh) -/
+
+def findP {α : Type} (p : α → Bool) : List α → Option (α × List α)
+  | [] => none
+  | o :: os => if p o then some (o, os) else (findP p os).map fun x => (x.1, o :: x.2)
+
+def dropP {α : Type} (p : α → Bool) : List α → List α
+  | [] => []
+  | o :: os => if p o then os else o :: dropP p os
+
+/-- `buildReuse` on (rule object, controller id) pairs; `n` is the next unused id -/
+def buildZ (k : String) : List R → List (R × Nat) → Nat → List (R × Nat)
+  | [], _, _ => []
+  | r :: rs, old, n =>
+    if M.scopedRes && M.res r != k then buildZ k rs old n
+    else match findP (fun x => M.equals x.1 r) old with
+      | some (x, rest) => x :: buildZ k rs rest n
+      | none =>
+        if M.buildable r then (M.norm r, n) :: buildZ k rs (dropP (fun x => M.statReusable x.1 r) old) (n + 1)
+        else buildZ k rs old n
+
+structure CState (R : Type) where
+  ctrl : String → List (R × Nat)
+  next : Nat
+
+def CState.init {R : Type} : CState R := { ctrl := fun _ => [], next := 0 }
+
+/-- the identity layer follows the manager: `s` is the manager state *before* the op -/
+def cstep (s : MState R) (c : CState R) : Op R → CState R
+  | .loadAll rules =>
+    if (loadAll M s rules).2 = .changed then
+      { ctrl := fun k => buildZ M k (validList M (proj M k rules)) (c.ctrl k) c.next, next := c.next + rules.length }
+    else c
+  | .loadRes res rules =>
+    if (loadRes M s res rules).2 = .changed then
+      { ctrl := upd c.ctrl res (buildZ M res (validList M rules) (c.ctrl res) c.next), next := c.next + rules.length }
+    else c
+  | .clearAll => if (loadAll M s []).2 = .changed then { c with ctrl := fun _ => [] } else c
+  | .clearRes res => if (loadRes M s res []).2 = .changed then { c with ctrl := upd c.ctrl res [] } else c
+
+def runC (ops : List (Op R)) : MState R × CState R :=
+  ops.foldl (fun sc op => ((step M sc.1 op).1, cstep M sc.1 sc.2 op)) (MState.init, CState.init)
+
+/-- identity classes in first-appearance order: `[7,9,7]` ↦ `[0,1,0]` -/
+def canonIds (ids : List Nat) : List Nat :=
+  let firsts := ids.eraseDups
+  ids.map fun i => firsts.idxOf i
 
 /-! ### the abstract reference: the raw list in force for each resource, from the history alone -/
 
